@@ -129,7 +129,7 @@ pub struct STextList {
     #[serde(rename = "$text", default = "empty")]
     t: BVec<String>,
     #[serde(rename = "@x", default = "empty")]
-    x: BVec<u8>,
+    x: BVec<String>,
 }
 
 #[derive(Deserialize, Debug, PartialEq)]
@@ -326,7 +326,7 @@ pub fn de_target(t: usize, input: &[u8], via_reader: bool, piece: usize) -> Resu
 
 pub const TOKENS: [&str; 23] = [
     "<a>", "</a>", "<b>", "</b>", "<a/>", "<b x=\"1\"/>", "<c x=\"1\">", "</c>", "t", " ", "1", "<![CDATA[c]]>", "<![CDATA[]]>", "<!--c-->",
-    "<!DOCTYPE d>", "<?p?>", "&lt;", "&bad;", "<a xsi:nil=\"true\">", "<a x=\"1\" x=\"2\">", "<a x=>", "<a x=\"1 y='2'>", "<a xmlns:xsi=\"http://www.w3.org/2001/XMLSchema-instance\" xsi:nil=\"1\"/>",
+    "<!DOCTYPE d>", "<?p?>", "&lt;", "&bad;", "<a xsi:nil=\"true\">", "<a x=\"1\" x=\"2\">", "<a x=>", "<a \"k='v\">", "<a xmlns:xsi=\"http://www.w3.org/2001/XMLSchema-instance\" xsi:nil=\"1\"/>",
 ];
 
 // ------------------------------------------------------------------------------------------------
@@ -441,7 +441,7 @@ pub fn run(ctx: &Ctx) {
     ctx.set_rule(
         "token soup: every sequence of up to N tokens over 23 tokens (start/end/empty tags of names a, b, c with and without \
          attributes, text, blank, number, CDATA, empty CDATA, comment, DOCTYPE, PI, a predefined and an unknown entity reference, \
-         xsi:nil in two spellings, duplicate attribute, attribute without value, unterminated attribute quote), bare and wrapped in \
+         xsi:nil in two spellings, duplicate attribute, attribute without value, an attribute whose quote the iterator cannot close although the tag scanner could), bare and wrapped in \
          <r>..</r>; plus every truncation at every byte of every plain serialization of the C06 family's quick value set. Each \
          document x 32 target types (structs with attributes / options / lists / nested structs, $text, $text list, $value enum \
          (single, Vec, tuple), $value string, IgnoredAny and unit fields, newtypes, unit struct, primitives, unit-only enum with \
@@ -482,6 +482,33 @@ pub fn run(ctx: &Ctx) {
         }
         acc.sample(seed, i, || json!({"document": doc}));
     });
+
+    // documents in a non-UTF-8 encoding (owned, re-encoded content in the deserializer), `full` build only
+    #[cfg(feature = "full")]
+    {
+        const W: [&[u8]; 5] = [b"\xE0", b"a", b" ", b"\xFF\xE0", b"1"];
+        let kw = W.len() as u64;
+        let maxw = t.pick(5, 6);
+        ctx.layer("encoded_documents", 2, count_upto(kw, maxw) * 2, json!({"encodings": ["windows-1251", "Shift_JIS"], "payload_alphabet": W.iter().map(|w| lossy(w)).collect::<Vec<_>>(), "max_len": maxw, "positions": ["attribute x", "text"]}), |i, acc| {
+            let mut d = Vec::new();
+            decode_upto(kw, maxw, i / 2, &mut d);
+            let w: Vec<u8> = d.iter().flat_map(|&x| W[x as usize].iter().copied()).collect();
+            let enc = if i % 2 == 0 { "windows-1251" } else { "Shift_JIS" };
+            let mut doc = format!("<?xml version=\"1.0\" encoding=\"{}\"?><r x=\"", enc).into_bytes();
+            doc.extend_from_slice(&w);
+            doc.extend_from_slice(b"\"><a x=\"1\">");
+            doc.extend_from_slice(&w);
+            doc.extend_from_slice(b"</a>");
+            doc.extend_from_slice(&w);
+            doc.extend_from_slice(b"</r>");
+            acc.nt_count += 1;
+            for tt in [0usize, 2, 3, 4, 7, 9, 16, 19, 24, 25] {
+                for &p in &[1usize, 0] {
+                    call(acc, (2, i), &doc, tt, true, p, &known);
+                }
+            }
+        });
+    }
 
     // truncations of valid documents, deserialized as their own type and as three generic targets
     let mut docs: Vec<(String, String)> = Vec::new();
